@@ -418,6 +418,25 @@ def run(ctx):
             r.ok("no class-level container in clikit.args; scratch maps are created in %s" % ", ".join(m.short for m in inits))
         else:
             r.vacuous_ok = True
+    # ---------------------------------------------------------------- R8
+    r = ctx.rule("C05-R8", "OWNER", "'a parser handed from request to request': which parser object a command uses is decided by configuration alone - the field behind "
+                 "Config.args_parser is written by the constructor and its setter only; the getter hands out the default (a fresh parser per access) without keeping it, so two "
+                 "requests never share a default parser's scratch state unless the application asked for that", reference=2)
+    cfg_cls = ctx.cls("clikit.api.config.config.Config")
+    getter = cfg_cls.methods.get("args_parser")
+    ctx.require(getter is not None, "Config.args_parser missing")
+    fields = {a.attr for a in walk_no_nested(getter.node) if is_self_attr(a)}
+    fields = {f for f in fields if "parser" in f}
+    ctx.require(fields, "Config.args_parser reads no parser field")
+    for c_ in sorted([cfg_cls] + list(ctx.p.subclasses(cfg_cls, strict=True)), key=lambda k: k.qualname):
+        for name_, m_ in sorted(c_.methods.items()):
+            for node_, kind_, t_ in [w for f_ in fields for w in q.writes_to_self_attr(m_, f_)]:
+                if name_ == "__init__" or name_.startswith("set_"):
+                    r.ok("%s.%s: %s" % (c_.name, name_, norm(node_)[:50]))
+                else:
+                    r.fail(m_, node_, "%s written in %s" % ("/".join(sorted(fields)), name_), "%s.%s keeps a parser in the configuration on its own: every command of that configuration, and every thread, then "
+                           "shares one parser object and its per-parse scratch state - two overlapping requests see each other's tokens (a line missing a required argument is accepted with the other's)" % (c_.name, name_))
+
     return ctx.results
 
 
